@@ -6,6 +6,9 @@ import (
 	"reflect"
 	"strings"
 
+	"go.mongodb.org/mongo-driver/bson"
+	"go.mongodb.org/mongo-driver/bson/primitive"
+
 	"github.com/256dpi/lungo/bsonkit"
 )
 
@@ -99,4 +102,30 @@ func useTransaction(ctx context.Context, engine *Engine, lock bool, fn func(*Tra
 	}
 
 	return res, nil
+}
+
+// detach returns a deep copy of a stored value that is handed out to the caller
+// (ids, distinct values) so that modifying it cannot affect stored documents.
+func detach(v interface{}) interface{} {
+	switch value := v.(type) {
+	case bson.D:
+		d := make(bson.D, len(value))
+		for i, e := range value {
+			d[i] = bson.E{Key: e.Key, Value: detach(e.Value)}
+		}
+		return d
+	case bson.A:
+		a := make(bson.A, len(value))
+		for i, item := range value {
+			a[i] = detach(item)
+		}
+		return a
+	case primitive.Binary:
+		return primitive.Binary{
+			Subtype: value.Subtype,
+			Data:    append([]byte(nil), value.Data...),
+		}
+	default:
+		return v
+	}
 }
